@@ -5,7 +5,7 @@ Model of the parse-time half of a reference role (property C08): `snooty/rstpars
                               ↦ `parseExplicit` — the specific recogniser the pattern denotes:
   the first `<` not preceded by NUL opens the target, the text must end with `>` (or `>` + final
   newline, Python's `$`), the label is what precedes with trailing whitespace removed
-* `strip_parameters` (`PAT_PARAMETERS = \s*\(.*?\)\s*$`, `search`, no DOTALL) ↦ `stripParams`
+* `strip_parameters` (`PAT_PARAMETERS = \s*\(.*?\)\s*$`, `search`, DOTALL) ↦ `stripParams`
 * `RefRoleHandler.__call__`   ↦ `roleParse` (flag, prefix, callable / cmdline_option handling)
 `isSpace` is Python's `\s` / `str.split` whitespace (parameter).
 -/
@@ -61,10 +61,20 @@ def indexOf (ch : Char) : Str → Option Nat
     | some i => some (i + 1)
     | none => none
 
-/-- `strip_parameters`: leftmost match of `\s*\(.*?\)\s*$` removed. The text (trailing whitespace
-aside) must end with `)`; `.` does not match a newline, so the opening `(` is the first one after
-the last newline before that `)`. -/
+/-- `strip_parameters`: leftmost match of `\s*\(.*?\)\s*$` removed, `.` matching a newline too (DOTALL: a long signature
+wraps over several lines). The text (trailing whitespace aside) must end with `)`; the match then starts at the FIRST `(`
+of the text (and the whitespace before it). -/
 def stripParams (isSpace : Char → Bool) (t : Str) : Str :=
+  match (rstrip isSpace t).reverse with
+  | ')' :: bodyRev =>
+    match indexOf '(' bodyRev.reverse with
+    | some p => rstrip isSpace (t.take p)
+    | none => t
+  | _ => t
+
+/-- the code before the repair: without DOTALL the `.` did not cross a newline, so the opening `(` had to stand on the last
+line: `db.foo(a,⏎b)` kept its parameters -/
+def stripParamsOld (isSpace : Char → Bool) (t : Str) : Str :=
   match (rstrip isSpace t).reverse with
   | ')' :: bodyRev =>
     let segRev := bodyRev.takeWhile (fun c => c != '\n')
